@@ -1,13 +1,13 @@
 (* C17/Property.v — property C17 (flight helpers), theorems only.  Model: C17/Model.v (MotionCommander +
    _SetPointThread as commanding thread + setpoint thread in virtual time under an arbitrary schedule;
-   PositionHlCommander as a sequential machine), exact rational arithmetic, land() repaired (F17a/F17b).
+   PositionHlCommander as a sequential machine), exact rational arithmetic, land() repaired (F17a/F17b), go_to guarded (F17c).
    Logs are lists of recorded calls, NEWEST FIRST.  EStart is a ghost entry marking the thread start;
    the last field of EHover is the ghost "vertical velocity in force". *)
 From CF Require Import C17.Model C17.Proofs_a C17.Proofs_b C17.Proofs_c.
 Open Scope Q_scope.
 
 (* Leaving an entered MotionCommander context — after any program of primitives (all 26 kinds, with default or
-   explicit velocities, explicit land/take_off, a raise), under any schedule, normally or with any exception —
+   explicit velocities, explicit land/take_off, user sleeps, a raise), under any schedule, normally or with any exception —
    ends the call log with stop; notify at the same instant, the thread is gone, the helper is not flying, and
    whatever time passes afterwards no further call is made. *)
 Theorem C17_mc_exit_ends_with_stop : forall E t0 defh ops sch x s,
@@ -109,12 +109,12 @@ Theorem C17_hl_goto_duration : forall sq x y zo v s s',
 Proof. exact hl_goto_targets_position. Qed.
 Print Assumptions C17_hl_goto_duration.
 
-(* leaving an entered PositionHlCommander context ends with stop, for every body of motion primitives, go_to,
-   default changes, take_off and raise (any exception) — i.e. every body without an explicit land() *)
+(* leaving an entered PositionHlCommander context ends with stop as the last high-level command, for EVERY body
+   (motion primitives, go_to, default changes, explicit land/take_off, raise; any exception): since F17c go_to raises
+   on the ground, so nothing can follow the stop of an explicit land() *)
 Theorem C17_hl_exit_ends_with_stop : forall sq s0 ops x s pos,
-  forallb (fun o => negb (h_is_land o)) ops = true ->
   run_hl sq s0 ops = HExited x s pos ->
-  hfly s = false /\ exists rest, hlog s = HStop (hnow s) :: rest.
+  hfly s = false /\ exists t rest, hlog s = HStop t :: rest.
 Proof. exact hl_exit_ends_with_stop. Qed.
 Print Assumptions C17_hl_exit_ends_with_stop.
 
@@ -123,12 +123,3 @@ Theorem C17_hl_land_ends_with_stop : forall v lh s s' r,
   hfly s' = false /\ exists rest, hlog s' = HStop (hnow s') :: rest.
 Proof. exact hl_land_ends_with_stop. Qed.
 Print Assumptions C17_hl_land_ends_with_stop.
-
-(* known finding F17c: go_to is not guarded by _is_flying; with an explicit land() in the body followed by a motion
-   primitive the context is left with a go_to, not stop, as the last command *)
-Theorem C17_hl_motion_after_land_refuted :
-  exists s pos t x y z yaw d t' rest,
-    run_hl qsqrt_exact (h_init 5 0 0 0 (1 # 2) (1 # 2) 0 None) [HOLand None None; HUp 1 None] = HExited None s pos /\
-    hlog s = HGoto t x y z yaw d :: HStop t' :: rest.
-Proof. exact hl_motion_after_land_refuted. Qed.
-Print Assumptions C17_hl_motion_after_land_refuted.
